@@ -352,7 +352,7 @@ def owns(prop, ev, tag):
         is_data = ev.get("kind") == "msg" and ev.get("v", {}).get("k") == "Data"
         return e == "roundtrip" and is_data == (prop == "C04") and (died or tag in ("roundtrip", "native-eq"))
     if prop == "C06":
-        if e == "bitmask":
+        if e in ("bitmask", "bitmask_sweep"):
             return tag in ("bitmask-layout", "bitmask-reencode")
         # (a refusal of a value that is within the size limits produces no octets at all: C06's, not C07's)
         return e in ("encode", "encode_seq", "roundtrip", "chain") and tag in ("octets", "unexpected-panic")
@@ -402,6 +402,8 @@ def owns(prop, ev, tag):
         return e in ("enum_map", "enum_names")
     if prop == "C17":
         # which bit carries which flag is C06's layout, and so is the header of the re-encoded record
+        if e == "bitmask_sweep":
+            return tag != "bitmask-layout"
         return e == "bitmask" and tag not in ("bitmask-layout", "bitmask-reencode")
     if prop == "C18":
         return e in ("cursor", "vecwriter")
